@@ -29,6 +29,15 @@ SIGNERS = [_keys("signer-0", "B"), _keys("signer-1", "D"), _keys("signer-2", "E"
 KEEP = {vid: ka for vid, ka in SIGNERS}
 # a signer the receiver does not know (vid code D so that the key must come from keep)
 STRANGER = _keys("stranger", "D")
+# a transferable signer whose key was rotated: the vid still embeds the first key, every keep holds the current one
+ROTATED_OLD = _keys("rotated-old", "D")                          # same vid, superseded key: what a holder of the old key can sign
+ROTATED = (ROTATED_OLD[0], _keys("rotated-new", "D")[1])
+KEEP[ROTATED[0]] = ROTATED[1]
+
+
+def signer_at(s):
+    """0-2 known signers, 3 unknown to the receiver, 4 rotated (current key), 5 rotated vid with the superseded key."""
+    return (SIGNERS + [STRANGER, ROTATED, ROTATED_OLD])[s % 6]
 
 
 class DetMemoer(Memoer):
@@ -48,9 +57,11 @@ def reset_mids():
 
 
 def sender(code, curt, size, signer=0):
-    vid = SIGNERS[signer][0] if code in AUTH_ZERO else None
+    who = signer_at(signer)
+    vid = who[0] if code in AUTH_ZERO else None
     keep = dict(KEEP)
     keep[STRANGER[0]] = STRANGER[1]
+    keep[who[0]] = who[1]
     m = DetMemoer(code=code, curt=curt, size=size, keep=keep, vid=vid)
     m.opened = True
     return m
